@@ -17,4 +17,9 @@ TEXT = {
         "note": _RNS_NOTE,
         "technique": "Lean 4 theorems over the register handler model + per-step model/implementation correspondence",
     },
+    "C18": {
+        "level": "Theorems over the notifications model (one store holding both record kinds, prefix scan and key-shape filter as in the code): the listing of an address is exactly the stored notifications addressed to it (C18_inbox_membership, under the store invariant proved for every history from the empty store); a successful send adds exactly one entry with the given sender/time/contents to the resolved recipient only; a blocked sender cannot deliver; delete removes only the signer's own matching entry; block changes no inbox. Tied to the code by the per-step correspondence (store and the chain's own listings) on every check.",
+        "note": "Trusted: Lean kernel (+3 standard axioms), harness/abs/driver tie, rns.Resolve and json.Valid as oracle inputs, '/'-splitting of raw keys (bech32 addresses are '/'-free).",
+        "technique": "Lean 4 invariant + one-step inbox characterisations + per-step model/implementation correspondence",
+    },
 }
